@@ -109,3 +109,46 @@ func VerifC04SchemaNew() {
 		vCover(true, "rejected")
 	}
 }
+
+// VerifC04SchemaNewRows: a universe text with a package row, a version row and rows at the import level whose
+// text is templated (typed imports, scoped names, attribute rows, bare pieces), so that the import-line logic
+// of schema.New is reached.
+func VerifC04SchemaNewRows() {
+	text := "a\n\t1"
+	if vParam("vattr") != 0 {
+		text = "a\n\t" + c04Text("va", 1) + "|1"
+	}
+	rows := vParam("rows")
+	for r := 0; r < rows; r++ {
+		tag := string([]byte{'i', byte('0' + r)})
+		line := "\t\t"
+		switch vParam(tag + "k") {
+		case 0: // name@version
+			line += c04Field(tag+"n") + "@" + c04Field(tag+"q")
+		case 1: // type|name@version
+			line += c04Text(tag+"t", vParam(tag+"tn")) + "|" + c04Field(tag+"n") + "@" + c04Field(tag+"q")
+		case 2: // type| and nothing else
+			line += c04Text(tag+"t", vParam(tag+"tn")) + "|"
+		case 3: // scoped name
+			line += "@" + c04Field(tag+"n") + "/" + c04Field(tag+"m") + "@" + c04Field(tag+"q")
+		case 4: // attribute row
+			line += "ATTR:" + c04Text(tag+"x", vParam(tag+"xn"))
+		case 5: // free text
+			line += c04Text(tag+"x", vParam(tag+"xn"))
+		case 6: // typed scoped name
+			line += c04Text(tag+"t", vParam(tag+"tn")) + "|@" + c04Field(tag+"n") + "/" + c04Field(tag+"m") + "@" + c04Field(tag+"q")
+		case 7: // a deeper row
+			line += "\t" + c04Field(tag+"n")
+		}
+		text += "\n" + line
+	}
+	sc, err := New(text, resolve.System(vParam("sys")))
+	vObserveBool("ok", err == nil)
+	if err == nil {
+		vCover(true, "accepted")
+		lc := sc.NewClient()
+		_ = sc.ValidateClient(lc)
+	} else {
+		vCover(true, "rejected")
+	}
+}
